@@ -2,7 +2,8 @@
    the legacy AddressPool and PrefixPool (free lists keyed by client DUID) as coded.
 
    Configuration modelled: both legacy pools configured, no integrated PoolAllocator (that
-   branch is NOT modelled).  Every message carries a Client ID; at most one IA_NA and one IA_PD.
+   branch is NOT modelled).  Every message carries a Client ID; at most one IA_NA and one IA_PD
+   (Information-Request: IAs in the message are ignored by the code and by the Model).
    DUIDs, addresses (128-bit) and delegated prefixes (their base address) are numbers.
 
    The server never compares a lifetime with the clock: leases are never expired.  The Model keeps
@@ -49,6 +50,7 @@ Inductive op6 :=
 | Confirm (d : N) (addr : option N)        (* one IA_NA holding [addr], or no IA_NA *)
 | Release6 (d : N)
 | Decline6 (d : N)
+| InfoReq (d : N)                          (* Information-Request: stateless, no IA is processed *)
 | Advance6 (t : N).
 
 Inductive ia6 := IaNone | IaVal (v : N) | IaErr (code : N).
@@ -56,7 +58,8 @@ Inductive reply6 :=
 | R6None
 | R6Adv (na pd : ia6)
 | R6Reply (na pd : ia6) (rapid : bool)     (* Reply with top-level status Success *)
-| R6Status (code : N).                     (* Reply carrying only a status code *)
+| R6Status (code : N)                      (* Reply carrying only a status code *)
+| R6Info.                                  (* Reply to Information-Request: ids (+DNS), no IA, no status *)
 
 (* AddressPool.Release(duid) / PrefixPool.Release(duid) *)
 Definition pool_release_key (h : N) (al : list (N * N)) (av : list N) : list (N * N) * list N :=
@@ -163,6 +166,7 @@ Definition step6 (c : cfg6) (s : state6) (o : op6) : state6 * reply6 * list N :=
                    | None => false
                    end in
       (release6 s d, R6Status 0, if frees then [211] else [])
+  | InfoReq d => (s, R6Info, [])
   | Advance6 t =>
       ({| leases6 := leases6 s; aalloc := aalloc s; aavail := aavail s; palloc := palloc s;
           pavail := pavail s; now6 := now6 s + t; granted := granted s |}, R6None, [])
@@ -193,7 +197,7 @@ Definition ia6_eqb (a b : ia6) : bool :=
   end.
 Definition reply6_eqb (a b : reply6) : bool :=
   match a, b with
-  | R6None, R6None => true
+  | R6None, R6None | R6Info, R6Info => true
   | R6Adv a1 a2, R6Adv b1 b2 => ia6_eqb a1 b1 && ia6_eqb a2 b2
   | R6Reply a1 a2 ar, R6Reply b1 b2 br => ia6_eqb a1 b1 && ia6_eqb a2 b2 && Bool.eqb ar br
   | R6Status x, R6Status y => x =? y
